@@ -167,6 +167,11 @@ fn collect_and_check(ctx: &mut Ctx, recs: &[Rec], round: usize, check_pattern: b
 
 /// Release the objects, collect, and print the `L` lines with the observed dealloc.
 fn release_and_report(ctx: &mut Ctx, recs: &[Rec], keep_from: usize) {
+    release_and_report_opt(ctx, recs, keep_from, true)
+}
+
+/// `print_l = false`: oracle only (kinds the Coq model has no `L` line format for)
+fn release_and_report_opt(ctx: &mut Ctx, recs: &[Rec], keep_from: usize, print_l: bool) {
     ctx.arena.mutate_root(|_, root| root.keep.truncate(keep_from));
     let errs_before = talloc::error_count();
     talloc::log_start();
@@ -177,7 +182,9 @@ fn release_and_report(ctx: &mut Ctx, recs: &[Rec], keep_from: usize) {
     for r in recs {
         let d = rec_desc(r);
         let Some(b) = r.block else {
-            println!("L {} {} {} {} {} X", r.custom as u8, r.meta.0, log2(r.meta.1), r.kind, r.len);
+            if print_l {
+                println!("L {} {} {} {} {} X", r.custom as u8, r.meta.0, log2(r.meta.1), r.kind, r.len);
+            }
             continue;
         };
         // FREE events that point at or near this block
@@ -216,11 +223,13 @@ fn release_and_report(ctx: &mut Ctx, recs: &[Rec], keep_from: usize) {
                 (0, 1, 999_999_999usize)
             }
         };
-        println!(
-            "L {} {} {} {} {} O {} {} {} {} {} {} {} {}",
-            r.custom as u8, r.meta.0, log2(r.meta.1), r.kind, r.len,
-            b.size, log2(b.align), r.addr - b.user, fsz, log2(fal), foff, r.val_size, log2(r.val_align)
-        );
+        if print_l {
+            println!(
+                "L {} {} {} {} {} O {} {} {} {} {} {} {} {}",
+                r.custom as u8, r.meta.0, log2(r.meta.1), r.kind, r.len,
+                b.size, log2(b.align), r.addr - b.user, fsz, log2(fal), foff, r.val_size, log2(r.val_align)
+            );
+        }
     }
     if talloc::error_count() > errs_before {
         ctx.st.drain_alloc_errors("while releasing a batch");
@@ -357,6 +366,102 @@ fn batch_custom<MD: Copy + Send + 'static, T: Plain>(ctx: &mut Ctx, md: MD) {
         collect_and_check(ctx, &recs, round, true);
     }
     release_and_report(ctx, &recs, base);
+}
+
+// ------------------------------------------------------------------------------------------------
+// custom per-value metadata that MATTERS: a `[u8]` whose length is stored as u8 / u16 / u32 / u64.  The layout
+// handed to dealloc and the fat pointer rebuilt from the thin one both depend on the metadata value read back
+// from the block, so reading it from the wrong place (padding between metadata and header) is observed.
+// ------------------------------------------------------------------------------------------------
+trait Len: Copy + Send + 'static {
+    fn from_usize(n: usize) -> Self;
+    fn to_usize(self) -> usize;
+}
+macro_rules! impl_len { ($($t:ty),*) => {$( impl Len for $t {
+    fn from_usize(n: usize) -> Self { n as $t }
+    fn to_usize(self) -> usize { self as usize }
+} )*}; }
+impl_len!(u8, u16, u32, u64);
+
+struct CompactLen<L>(PhantomData<L>);
+
+impl<L: Len> PtrMeta<[u8], ()> for CompactLen<L> {
+    type PtrMetadata = L;
+    type Thin = u8;
+    fn to_thin(_: &'static (), fat: *const [u8]) -> *const u8 {
+        fat as *const u8
+    }
+    fn from_thin(_: &'static (), thin: *const u8, len: L) -> *const [u8] {
+        core::ptr::slice_from_raw_parts(thin, len.to_usize())
+    }
+}
+impl<L: Len> AllocMeta<[u8], ()> for CompactLen<L> {
+    fn layout(_: &'static (), len: L) -> Option<Layout> {
+        Layout::array::<u8>(len.to_usize()).ok()
+    }
+}
+
+fn batch_compact<L: Len>(ctx: &mut Ctx, lens: &[usize]) {
+    let (ms, ma) = (size_of::<L>(), align_of::<L>());
+    println!("CASE compact-length slice m={},{}", ms, ma);
+    let base = keep_len(ctx, lens.len());
+    let mut recs: Vec<Rec> = Vec::with_capacity(lens.len());
+    {
+        let Ctx { arena, st } = ctx;
+        for &len in lens {
+            if ms < 8 && len >= (1usize << (8 * ms)) {
+                continue;
+            }
+            let mut r = new_rec(st, "C 1 0".to_string(), true, (ms, ma), len);
+            r.val_size = len;
+            r.val_align = 1;
+            r.keep_index = base + recs.len();
+            arena.mutate_root(|mc, root| {
+                talloc::log_start();
+                let mut builder = unsafe {
+                    GcBuilder::<[u8], (), CompactLen<L>>::new_with_type_and_ptr_meta::<UnitTypeMeta>(L::from_usize(len))
+                };
+                let sp = builder.as_ptr();
+                r.addr = sp as *mut u8 as usize;
+                let d = rec_desc(&r);
+                if sp.len() != len {
+                    st.viol(&d, &format!("builder pointer has length {} for metadata {}", sp.len(), len));
+                }
+                let writable = place(st, &mut r);
+                check_logged(st, &r, "GcBuilder::new_with_type_and_ptr_meta (compact length)");
+                talloc::log_stop();
+                unsafe { fill(r.addr as *mut u8, writable, r.obj) };
+                let gc = unsafe { builder.assume_init(mc) };
+                let p: *const [u8] = Gc::as_ptr(gc);
+                if p as *const u8 as usize != r.addr || p.len() != len {
+                    st.viol(&d, &format!("Gc::as_ptr = ({:#x}, len {}) expected ({:#x}, len {})", p as *const u8 as usize, p.len(), r.addr, len));
+                }
+                let thin = Gc::as_thin(gc);
+                let back: *const [u8] = Gc::as_ptr(Gc::as_fat(thin));
+                if back as *const u8 as usize != r.addr || back.len() != len {
+                    st.viol(&d, &format!("thin->fat gives ({:#x}, len {}) expected ({:#x}, len {}): the per-value metadata is not read back from where it was stored",
+                        back as *const u8 as usize, back.len(), r.addr, len));
+                }
+                root.keep.push(Gc::erase(gc));
+            });
+            recs.push(r);
+        }
+    }
+    for round in 0..3 {
+        collect_and_check(ctx, &recs, round, true);
+        // thin -> fat again after the collection, from the address alone
+        let Ctx { arena, st } = ctx;
+        arena.mutate(|_, _| {
+            for r in &recs {
+                let thin = unsafe { gc_arena::GcThin::<[u8], (), CompactLen<L>>::from_thin_ptr_with_kind(r.addr as *const u8) };
+                let fat: *const [u8] = Gc::as_ptr(Gc::as_fat(thin));
+                if fat.len() != r.len {
+                    st.viol(&rec_desc(r), &format!("after collection round {}: thin->fat length {} expected {}", round, fat.len(), r.len));
+                }
+            }
+        });
+    }
+    release_and_report_opt(ctx, &recs, base, false);
 }
 
 // ------------------------------------------------------------------------------------------------
@@ -850,6 +955,15 @@ fn run_all(thorough: bool, seed: u64) -> (usize, usize) {
          (A32<32>, A32([3; 32])), (A64<0>, A64([])), (A4096<1>, A4096([1])), ([u64; 5], [1u64; 5])];
         [A1<0>, A1<1>, A4<4>, A8<24>, A16<16>, A64<0>, A128<1>, A4096<1>]
     );
+
+    for (name, f) in [
+        ("compact length u8", batch_compact::<u8> as fn(&mut Ctx, &[usize])),
+        ("compact length u16", batch_compact::<u16>),
+        ("compact length u32", batch_compact::<u32>),
+        ("compact length u64", batch_compact::<u64>),
+    ] {
+        guarded(ctx, name, |c| f(c, &[0, 1, 5, 13, 200, 255, 256, 4099]));
+    }
 
     // rejected requests
     reject_swh::<(), A1<1>>(ctx, "T", 1);
